@@ -27,21 +27,6 @@ package align
 // the two dynamic-programming tables are l1 x l2 rectangles of pairwise distinct rows, maxa has l2 cells
 //@ pure func matok(a *pwaligner, l1 int, l2 int) bool = len(a.matrix) == l1 && len(a.trace) == l1 && len(a.maxa) == l2 && (forall i :: 0 <= i && i < l1 ==> len(a.matrix[i]) == l2 && len(a.trace[i]) == l2) && (forall i1, i2 :: 0 <= i1 && i1 < i2 && i2 < l1 ==> base(a.matrix[i1]) != base(a.matrix[i2]) && base(a.trace[i1]) != base(a.trace[i2]))
 
-//@ func (*pwaligner).initMatrix
-//@   props C09
-//@   float xreal
-//@   requires a != nil && 0 <= l1 && 0 <= l2
-//@   ensures matok(a, l1, l2) && fresh(a.matrix) && fresh(a.trace) && fresh(a.maxa)
-//@   ensures forall i :: 0 <= i && i < l1 ==> fresh(a.matrix[i]) && fresh(a.trace[i]) && allocated(a.matrix[i]) && allocated(a.trace[i])
-//@   ensures forall i, j :: 0 <= i && i < l1 && 0 <= j && j < l2 ==> a.trace[i][j] == 0 && isfin(a.matrix[i][j]) && fin(a.matrix[i][j]) == 0.0
-//@   modifies a.matrix, a.trace, a.maxa
-//@   loop 1
-//@     invariant len(a.matrix) == l1 && len(a.trace) == l1 && len(a.maxa) == l2 && fresh(a.matrix) && fresh(a.trace) && fresh(a.maxa) && base(a.matrix) != base(a.trace)
-//@     invariant forall k :: 0 <= k && k < $i ==> len(a.matrix[k]) == l2 && len(a.trace[k]) == l2 && fresh(a.matrix[k]) && fresh(a.trace[k]) && allocated(a.matrix[k]) && allocated(a.trace[k])
-//@     invariant forall k1, k2 :: 0 <= k1 && k1 < k2 && k2 < $i ==> base(a.matrix[k1]) != base(a.matrix[k2]) && base(a.trace[k1]) != base(a.trace[k2])
-//@     invariant forall k, j :: 0 <= k && k < $i && 0 <= j && j < l2 ==> a.trace[k][j] == 0 && isfin(a.matrix[k][j]) && fin(a.matrix[k][j]) == 0.0
-//@     decreases l1 - $i
-
 // character k of sequence s, folded to upper case as seqToindices does, is a key of the index map of the aligner
 // the gap character is not a key of the index map (true of both built-in maps, see NewPwAligner)
 //@ pure func nogapkey(a *pwaligner) bool = !has(a.chartopos, '-')
@@ -81,42 +66,6 @@ package align
 // object invariant of the aligner between calls
 //@ pure func pwok(a *pwaligner) bool = a != nil && a.seq1 != nil && a.seq2 != nil && subok(a) && 0 <= a.maxi && 0 <= a.maxj && (a.maxi == 0 || a.maxi < len1(a)) && (a.maxj == 0 || a.maxj < len2(a))
 
-//@ func (*pwaligner).fillMatrix_SW
-//@   props C09
-//@   float xreal
-//@   requires pwok(a)
-//@   ensures pwok(a)
-//@   ensures err == nil ==> alphaok1(a) && alphaok2(a)
-//@   ensures alphaok1(a) && alphaok2(a) && len1(a) > 0 && len2(a) > 0 ==> err == nil
-//@   ensures err == nil ==> matok(a, len1(a), len2(a)) && trok(a, len1(a), len2(a))
-//@   ensures err == nil ==> 0 <= a.maxi && a.maxi < len1(a) && 0 <= a.maxj && a.maxj < len2(a)
-//@   ensures err == nil && nogapkey(a) ==> nogap1(a) && nogap2(a)
-//@   modifies a.matrix, a.trace, a.maxa, a.maxscore, a.maxi, a.maxj
-//@   loop 1
-//@     invariant err == nil && pwok(a) && l1 == len1(a) && l2 == len2(a) && matok(a, l1, l2)
-//@     invariant len(indexseq1) == l1 && len(indexseq2) == l2 && idxok(a, indexseq1, l1) && idxok(a, indexseq2, l2) && sep(a, indexseq1, l1) && sep(a, indexseq2, l1)
-//@     invariant 0 <= j && trrow0(a, j)
-//@     decreases l2 - j
-//@   loop 2
-//@     invariant err == nil && pwok(a) && l1 == len1(a) && l2 == len2(a) && matok(a, l1, l2)
-//@     invariant len(indexseq1) == l1 && len(indexseq2) == l2 && idxok(a, indexseq1, l1) && idxok(a, indexseq2, l2) && sep(a, indexseq1, l1) && sep(a, indexseq2, l1)
-//@     invariant 0 <= i && trrow0(a, l2) && trcol0(a, i)
-//@     decreases l1 - i
-//@   loop 3
-//@     invariant err == nil && pwok(a) && l1 == len1(a) && l2 == len2(a) && matok(a, l1, l2)
-//@     invariant len(indexseq1) == l1 && len(indexseq2) == l2 && idxok(a, indexseq1, l1) && idxok(a, indexseq2, l2) && sep(a, indexseq1, l1) && sep(a, indexseq2, l1)
-//@     invariant 1 <= i && trrow0(a, l2) && trcol0(a, l1) && trin(a, i, l2)
-//@     decreases l1 - i
-//@   loop 4
-//@     invariant err == nil && pwok(a) && l1 == len1(a) && l2 == len2(a) && matok(a, l1, l2)
-//@     invariant len(indexseq1) == l1 && len(indexseq2) == l2 && idxok(a, indexseq1, l1) && idxok(a, indexseq2, l2) && sep(a, indexseq1, l1) && sep(a, indexseq2, l1)
-//@     invariant 1 <= i && i < l1 && 1 <= j && base(a.trace[0]) != base(a.trace[i])
-//@     invariant trrow0(a, l2)
-//@     invariant trcol0(a, l1)
-//@     invariant trin(a, i, l2)
-//@     invariant forall jj :: 1 <= jj && jj < j ==> a.trace[i][jj] == ALIGN_UP || a.trace[i][jj] == ALIGN_LEFT || a.trace[i][jj] == ALIGN_DIAG
-//@     decreases l2 - j
-
 // ---- backTrack_SW: structure of the trace-back ----
 // state left by a successful fillMatrix_SW
 //@ pure func filled(a *pwaligner) bool = pwok(a) && matok(a, len1(a), len2(a)) && trok(a, len1(a), len2(a)) && a.maxi < len1(a) && a.maxj < len2(a)
@@ -129,45 +78,7 @@ package align
 // what the caller is promised: the counters and the reported length are those of the n returned columns
 //@ pure func counts(a *pwaligner, n int) bool = cnt(a, n, a.start1 - 1, a.start2 - 1, 0, 0, 0, 0)
 
-//@ func (*pwaligner).backTrack_SW
-//@   props C09
-//@   float xreal
-//@   requires filled(a) && nogap1(a) && nogap2(a)
-//@   ensures len(a.seq1ali) == len(a.seq2ali) && len(a.alistr) == len(a.seq1ali) && len(a.seq1ali) >= 1
-// (on the unchanged code the next clause fails: the counters are never reset, defect 3)
-//@   ensures counts(a, len(a.seq1ali))
-//@   ensures colsok(a.seq1ali, a.seq2ali, len(a.seq1ali))
-//@   ensures a.end1 == old(a.maxi) && a.end2 == old(a.maxj) && 0 <= a.start1 && a.start1 <= a.end1 + 1 && 0 <= a.start2 && a.start2 <= a.end2 + 1
-//@   ensures filled(a) && nogap1(a) && nogap2(a) && bufs(a.seq1ali, a.seq2ali, a.alistr)
-//@   ensures a.maxi == old(a.maxi) && a.maxj == old(a.maxj)
-//@   modifies a.end1, a.end2, a.start1, a.start2, a.length, a.nbgaps, a.nbmatches, a.nbmismatches, a.seq1ali, a.seq2ali, a.alistr
-//@   loop 1
-//@     invariant filled(a) && nogap1(a) && nogap2(a) && a.end1 == a.maxi && a.end2 == a.maxj
-//@     invariant -1 <= i && i <= a.end1 && -1 <= j && j <= a.end2 && bufs(seq1, seq2, alistr)
-//@     invariant cnt(a, len(seq1), i, j, entry(a.nbmatches), entry(a.nbmismatches), entry(a.nbgaps), entry(a.length))
-//@     invariant colsok(seq1, seq2, len(seq1))
-//@     invariant len(seq1) == 0 ==> i == a.end1 && j == a.end2
-//@     decreases i + j + 2
-//@   loop 2
-//@     invariant 0 <= ngaps && ngaps < i
-//@     decreases i - ngaps
-//@   loop 3
-//@     invariant filled(a) && nogap1(a) && nogap2(a) && a.end1 == a.maxi && a.end2 == a.maxj
-//@     invariant 0 <= g && g <= ngaps && 1 <= ngaps && ngaps <= entry(i) && i == entry(i) - g && entry(i) <= a.end1 && 0 <= j && j <= a.end2 && bufs(seq1, seq2, alistr)
-//@     invariant len(seq1) == entry(len(seq1)) + g
-//@     invariant a.nbgaps == entry(a.nbgaps) + g && a.length == entry(a.length) + g
-//@     invariant colsok(seq1, seq2, len(seq1))
-//@     decreases ngaps - g
-//@   loop 4
-//@     invariant 0 <= ngaps && ngaps < j
-//@     decreases j - ngaps
-//@   loop 5
-//@     invariant filled(a) && nogap1(a) && nogap2(a) && a.end1 == a.maxi && a.end2 == a.maxj
-//@     invariant 0 <= g && g <= ngaps && 1 <= ngaps && ngaps <= entry(j) && j == entry(j) - g && entry(j) <= a.end2 && 0 <= i && i <= a.end1 && bufs(seq1, seq2, alistr)
-//@     invariant len(seq1) == entry(len(seq1)) + g
-//@     invariant a.nbgaps == entry(a.nbgaps) + g && a.length == entry(a.length) + g
-//@     invariant colsok(seq1, seq2, len(seq1))
-//@     decreases ngaps - g
+// (the contract of backTrack_SW is in zz_contracts_sw2_verif.go)
 
 // ---- construction: defensive copies, default scheme, built-in tables ----
 //@ table dnafull_subst_matrix C09
